@@ -2,58 +2,11 @@
 `register/virtl.rs`: construction and index forms; `QReg::get_vreg`.
 (split out of GenRegs2.lean so that an equality that no longer holds blocks only the properties that rely on it)
 -/
-import Qvnt.Lemmas.GenBits
-import Qvnt.Lemmas.GenQuant
-import Qvnt.Lemmas.GenRegs
-
-set_option linter.unusedSectionVars false
-
-namespace Qvnt.Gen2
-open Qvnt Qvnt.Gen
-
-variable {R : Type}
-
-/-! ### virtual registers (`register/virtl.rs`) -/
-
-def vregOfModel (v : VReg) : VRegG := ⟨v.bits⟩
-
-theorem vreg_new_with_mask_eq (m : Nat) : vreg_new_with_mask m = vregOfModel (VReg.ofMask m) := by
-  have := bitsList_eq m
-  unfold bitsList at this
-  simp [vreg_new_with_mask, vregOfModel, VReg.ofMask, this]
-
-theorem vreg_new_eq (n : Nat) : vreg_new n = vregOfModel (VReg.new n) := by
-  unfold vreg_new VReg.new CReg.maskOf W
-  rw [vreg_new_with_mask_eq]
-  by_cases h : n ≥ 64
-  · simp [h, Qvnt.notW]
-  · have hn : n < 64 := by omega
-    simp [h, shl_one n hn, mask_eq n hn]
-
-theorem vreg_index_eq (v : VReg) (i : Nat) : vreg_index (vregOfModel v) i = (v.idx i).getD 0 := by
-  simp [vreg_index, vregOfModel, VReg.idx, List.getD_eq_getElem?_getD]
-
-theorem foldl_filterMap' {α β γ : Type} (f : β → Option γ) (g : α → γ → α) (l : List β) (a : α) :
-    List.foldl g a (List.filterMap f l) = List.foldl (fun acc b => match f b with | some c => g acc c | none => acc) a l := by
-  induction l generalizing a with
-  | nil => rfl
-  | cons x xs ih =>
-    simp only [List.filterMap_cons, List.foldl_cons]
-    cases f x <;> simp [ih]
-
-theorem vreg_index_by_eq (v : VReg) (f : Nat → Bool) : vreg_index_by (vregOfModel v) f = v.idxBy f := by
-  unfold vreg_index_by VReg.idxBy vregOfModel Rs.enumerate
-  simp only [foldl_filterMap', List.foldl_map]
-  congr 1
-  funext acc p
-  cases f p.2 <;> simp
-
-theorem quant_get_vreg_eq (r : QReg R) : quant_get_vreg (ofModel r) = vregOfModel r.getVReg := by
-  simp [quant_get_vreg, QReg.getVReg, ofModel, vreg_new_with_mask_eq]
-theorem quant_get_vreg_by_eq (r : QReg R) (mask : Nat) :
-    quant_get_vreg_by (ofModel r) mask = (r.getVRegBy mask).map vregOfModel := by
-  unfold quant_get_vreg_by QReg.getVRegBy
-  simp only [ofModel, notW_eq, vreg_new_with_mask_eq]
-  by_cases h : mask &&& CReg.notW r.qMask = 0 <;> simp [h]
-
-end Qvnt.Gen2
+import Qvnt.Lemmas.GenVirtl.vregOfModel
+import Qvnt.Lemmas.GenVirtl.vreg_new_with_mask_eq
+import Qvnt.Lemmas.GenVirtl.vreg_new_eq
+import Qvnt.Lemmas.GenVirtl.vreg_index_eq
+import Qvnt.Lemmas.GenVirtl.foldl_filterMap_p
+import Qvnt.Lemmas.GenVirtl.vreg_index_by_eq
+import Qvnt.Lemmas.GenVirtl.quant_get_vreg_eq
+import Qvnt.Lemmas.GenVirtl.quant_get_vreg_by_eq
